@@ -30,6 +30,7 @@ CORPUS = {
     "trailing-garbage": "let a = num;\nres / on get -> <a>;\n\u00a0\u2028§",
     "nul-and-controls": "let a\x00 = num;\x0b\nres / on get -> <a>;\x7f\n",
     "optional-parts-in-another-order": "let t = put : <str> { 'q str } -> <>;\nres /a on get { 'p num } : <{}> { 'again num } -> <>;\nlet c = <{}, status=200>;\nres /b?{ 'x num }/{ 'y num } on get -> <>;\nlet d = 'p! ? num;\n",
+    "annotations-followed-by-blank-lines": "# summary: \"s\"\n\n\nlet a = num;\n# description: \"d\"\r\n\r\n\r\nlet b = str;\n// comment\n\n\n# tags: [x]\n\nres / on get -> <a>;\n\n\n",
     "optional-parts-left-out": 'use "m.oal" as m;\nlet a = m.;\nlet b = { \'x m. , \'y str };\nlet c = b.;\nres /p? on get -> <>;\nres / on get : -> <>;\nlet d = [ ] ;\nlet e = a :: ;\n',
 }
 
